@@ -82,19 +82,67 @@ let exec toks =
           s_res (fun x -> s_hr (hr_from x)) vv ] in
       String.concat " " (if n = 5 then base @ [ s_res s_n (evaluate_five_cards c ws) ] else base)
   | "rankv" ->
-      let ws = List.tl (nums ()) in
+      let v = nums () in
+      let n = int_of_n (List.hd v) in
+      let ws = List.tl v in
       let hrv = hand_rank_value c ws in
       let vv = hand_rank_value_validated c ws in
-      String.concat " " [ s_res s_n hrv; s_res s_n hrv; s_res (fun (x, _) -> s_n x) (hrvh c ws); s_res s_n vv; s_res s_n vv ]
+      let base = [ s_res s_n hrv; s_res s_n hrv; s_res (fun (x, _) -> s_n x) (hrvh c ws); s_res s_n vv; s_res s_n vv ] in
+      String.concat " " (if n = 5 then base @ [ s_res s_n (evaluate_five_cards c ws) ] else base)
   | "vrank" ->
       let v = nums () in
       let n = int_of_n (List.hd v) in
       let ws = List.tl v in
       let valid = is_valid ws in
       let vv = hand_rank_value_validated c ws in
-      let base = [ s_b valid; s_res s_n vv; s_res (fun x -> s_hr (hr_from x)) vv ] in
-      let base = if valid then base @ [ s_res s_n (hand_rank_value c ws) ] else base in
-      String.concat " " (if n = 5 then base @ [ s_res s_n (evaluate_five_cards c ws) ] else base)
+      let eqr a b = match (a, b) with Ok x, Ok y -> s_b (x = y) | _ -> "P" in
+      let base = [ s_b valid; s_res (fun x -> s_b (x = N0)) vv; s_res (fun _ -> "1") vv ] in
+      let base = if valid then base @ [ eqr (hand_rank_value c ws) vv ] else base in
+      String.concat " " (if n = 5 then base @ [ eqr (evaluate_five_cards c ws) vv ] else base)
+  | "wit" -> (
+      let v = nums () in
+      let n = int_of_n (List.hd v) in
+      let ws = List.tl v in
+      match hrvh c ws with
+      | Panic -> "P"
+      | Diverge -> "DIVERGE"
+      | Ok (value, h) ->
+          if n = 5 then s_b (h = ws)
+          else
+            let from_input = List.for_all (fun x -> List.mem x ws) h in
+            let rec distinct = function [] -> true | x :: r -> (not (List.mem x r)) && distinct r in
+            let rec desc = function a :: (b :: _ as r) -> Int64.unsigned_compare (int64_of_n a) (int64_of_n b) >= 0 && desc r | _ -> true in
+            let re = match hand_rank_value c h with Ok x -> x = value | _ -> false in
+            String.concat " " [ s_b from_input; s_b (distinct h); s_b (desc h); s_b re ])
+  | "shiftinv" ->
+      let ws = List.tl (nums ()) in
+      let v0 = hand_rank_value c ws in
+      let h1 = shift_suit_hand ws in
+      let h2 = shift_suit_hand h1 in
+      let h3 = shift_suit_hand h2 in
+      let eqr a = match (a, v0) with Ok x, Ok y -> s_b (x = y) | _ -> "P" in
+      String.concat " " (List.map (fun h -> eqr (hand_rank_value c h)) [ h1; h2; h3 ] @ [ s_b (shift_suit_hand h3 = ws) ])
+  | "chain7" -> (
+      let ws = nums () in
+      let skip l k = List.filteri (fun i _ -> i <> k) l in
+      let le a b = Int64.unsigned_compare (int64_of_n a) (int64_of_n b) <= 0 in
+      let minl l = List.fold_left (fun a x -> if le x a then x else a) (List.hd l) l in
+      let exception Pan in
+      let get r = match r with Ok x -> x | _ -> raise Pan in
+      try
+        let v7 = get (hand_rank_value c ws) in
+        let sixes = List.init 7 (fun k -> skip ws k) in
+        let v6s = List.map (fun s -> get (hand_rank_value c s)) sixes in
+        let ok76 = List.for_all (fun v6 -> le v7 v6) v6s in
+        let ok65 = ref true and min_ok = ref true in
+        List.iter2
+          (fun s v6 ->
+            let v5s = List.init 6 (fun k -> get (hand_rank_value c (skip s k))) in
+            ok65 := !ok65 && List.for_all (fun v5 -> le v6 v5) v5s;
+            min_ok := !min_ok && minl v5s = v6)
+          sixes v6s;
+        String.concat " " [ s_b ok76; s_b (v7 = minl v6s); s_b !ok65; s_b !min_ok ]
+      with Pan -> "P")
   | "rankp" ->
       let v = nums () in
       let n = int_of_n (List.hd v) in
